@@ -6,6 +6,8 @@ import gen
 from common import Driver, sparse_to_dict
 
 
+REGEN = ("constants", "registry", "umapsrc")
+
 def graph_diff(a, b):
     da, db = sparse_to_dict(a), sparse_to_dict(b)
     worst, at = 0.0, None
@@ -65,6 +67,8 @@ def check_init_update(ctx):
 
 
 def run(ctx):
+    import srcval as _srcval
+    _srcval.validate_umap(ctx, 200 if ctx.thorough else 40, ctx.rng, only="init_update")     # translated `init_update` vs the Python source
     import umap
     rng = ctx.rng
     check_init_update(ctx)
